@@ -18,7 +18,8 @@ contract(CONN + '._receive_window_update_frame', props=['C03', 'C17', 'C27', 'C2
     args={'frame': 'frame:WindowUpdateFrame'}, setup=conn_setup, requires=['GI(self)'],
     let={'cst': 'self.state_machine.state.value', 'sid': 'frame.stream_id', 'inc': 'frame.window_increment',
          'exists': 'frame.stream_id in self.streams'},
-    ensures=[('conn-window-credited', 'implies(sid == 0, self.outbound_flow_control_window == old(self.outbound_flow_control_window) + inc)', ['C03']),
+    ensures=[('closed-connection-processes-nothing', 'cst != C_CLOSED', ['C19']),
+             ('conn-window-credited', 'implies(sid == 0, self.outbound_flow_control_window == old(self.outbound_flow_control_window) + inc)', ['C03']),
              ('conn-window-kept', 'implies(sid != 0, self.outbound_flow_control_window == old(self.outbound_flow_control_window))', ['C03']),
              ('stream-window-credited-or-reset', 'implies(sid != 0 and exists and len(result[1]) == 1 and class_name(result[1][0]) == "WindowUpdated", %s.outbound_flow_control_window == old(%s.outbound_flow_control_window) + inc)' % (FSID, FSID), ['C03']),
              ('other-stream-windows-kept', 'all(implies(k != sid, self.streams[k].outbound_flow_control_window == old(self.streams[k].outbound_flow_control_window)) for k in self.streams)', ['C03']),
@@ -41,7 +42,8 @@ contract(CONN + '._receive_window_update_frame', props=['C03', 'C17', 'C27', 'C2
 contract(CONN + '._receive_rst_stream_frame', props=['C27', 'C20', 'C17', 'C06'],
     args={'frame': 'frame:RstStreamFrame'}, setup=conn_setup, requires=['GI(self)'],
     let={'cst': 'self.state_machine.state.value', 'sid': 'frame.stream_id', 'exists': 'frame.stream_id in self.streams'},
-    ensures=[('idle-stream-ignored', 'implies(not exists and sid > watermark(self, sid), len(result[0]) == 0 and len(result[1]) == 0)', ['C27', 'C06']),
+    ensures=[('closed-connection-processes-nothing', 'cst != C_CLOSED', ['C19']),
+             ('idle-stream-ignored', 'implies(not exists and sid > watermark(self, sid), len(result[0]) == 0 and len(result[1]) == 0)', ['C27', 'C06']),
              ('no-frames', 'len(result[0]) == 0'),
              ('closes-the-stream', 'implies(exists, %s.state == StreamState.CLOSED)' % FSM, ['C06']),
              ('reset-event', 'implies(exists and old(%s.state) != StreamState.CLOSED, len(result[1]) == 1 and class_name(result[1][0]) == "StreamReset" and result[1][0].stream_id == sid and result[1][0].remote_reset)' % FSM, ['C06', 'C07']),
@@ -111,7 +113,8 @@ contract(CONN + '._receive_data_frame', props=['C04', 'C05', 'C16', 'C17', 'C20'
     let={'cst': 'self.state_machine.state.value', 'sid': 'frame.stream_id', 'exists': 'frame.stream_id in self.streams',
          'fcl': 'frame.flow_controlled_length', 'cw': CM + '.current_window_size',
          'es': '"END_STREAM" in frame.flags'},
-    ensures=[('fits-connection-window', 'fcl <= cw', ['C04']),
+    ensures=[('closed-connection-processes-nothing', 'cst != C_CLOSED', ['C19']),
+             ('fits-connection-window', 'fcl <= cw', ['C04']),
              ('accepted-fits-stream-window', 'implies(accepted_data(result), fcl <= old(%s.current_window_size))' % SWM, ['C04']),
              ('accepted-consumes-both-windows', 'implies(accepted_data(result), %s.current_window_size == cw - fcl and %s.current_window_size == old(%s.current_window_size) - fcl)' % (CM, SWM, SWM), ['C04']),
              ('accepted-event', 'implies(accepted_data(result), result[1][0].stream_id == sid and result[1][0].data == frame.data and result[1][0].flow_controlled_length == fcl and len(result[0]) == 0)', ['C07']),
@@ -148,7 +151,8 @@ contract(CONN + '._receive_alt_svc_frame', props=['C24', 'C17', 'C27'],
     args={'frame': 'frame:AltSvcFrame'}, setup=conn_setup, requires=['GI(self)'],
     let={'cst': 'self.state_machine.state.value', 'sid': 'frame.stream_id', 'exists': 'frame.stream_id in self.streams',
          'has_origin': 'len(frame.origin) > 0'},
-    ensures=[('no-frames', 'len(result[0]) == 0', ['C24']),
+    ensures=[('closed-connection-processes-nothing', 'cst != C_CLOSED', ['C19']),
+             ('no-frames', 'len(result[0]) == 0', ['C24']),
              ('at-most-one-event', 'len(result[1]) <= 1', ['C24']),
              ('servers-ignore', 'implies(not self.config.client_side and (sid == 0 or (exists and %s.client is not True)), len(result[1]) == 0)' % FSM, ['C24']),
              ('connection-level-needs-origin', 'implies(sid == 0, (len(result[1]) == 1) == (has_origin and self.config.client_side))', ['C24']),
